@@ -245,8 +245,10 @@ def apache_doc(rng, idx, outdir, fault_wanted):
     nsec = rng.randint(1, 4)
     secs = []
     opts = []
+    sidbits = rng.sample([1, 2, 3, 4, 5, 6, 31, 32, 33, 47, 63] if rng.random() < 0.4 else [1, 2, 3, 4, 5, 6], 4)
     for k in range(nsec):
-        secs.append(dict(name=newname(), sid=(1 << (k + 1)) if rng.random() < 0.85 else 0))
+        # section ids are 64-bit masks (qaconf_option_t.sectionid is a uint64_t): low bits and, now and then, bits 31..63
+        secs.append(dict(name=newname(), sid=(1 << (sidbits[k])) if rng.random() < 0.85 else 0))
     allsids = [s['sid'] for s in secs if s['sid']]
 
     def rand_scope(allow_all=True):
